@@ -1,6 +1,10 @@
 package c09
 
-import "github.com/ohler55/slip"
+import (
+	"math"
+
+	"github.com/ohler55/slip"
+)
 
 // The fixed pool of representative objects of the property's quantifier.
 //
@@ -47,6 +51,13 @@ var pool = []poolObj{
 	{"negbig70", "bignum", "-" + big70, false, nil},
 	{"negratio", "ratio", "-7/3", false, nil},
 	{"negzero", "float", "-0.0", false, nil},
+	{"five", "posint", "5", false, nil},
+	// what float arithmetic hands out at its edges: (* 1d308 10) and the difference of two of those
+	{Name: "inf", Class: "inf", Src: "(* 1d308 10)", Make: func() slip.Object { return slip.DoubleFloat(math.Inf(1)) }},
+	{Name: "nan", Class: "nan", Src: "(- (* 1d308 10) (* 1d308 10))", Make: func() slip.Object { return slip.DoubleFloat(math.NaN()) }},
+	// strings whose character count and byte count differ, and digits beyond a machine word
+	{"nonascii-str", "string", `"ééé"`, false, nil},
+	{"digits-str", "string", `"99999999999999999999 "`, false, nil},
 	// integers of the small and sized types (what aref of an octets vector or a bit-vector, or
 	// coerce, hands out): they only become fixnums when a function normalizes its numbers
 	{"octet0", "octet", "(coerce 0 'octet)", false, nil},
@@ -122,7 +133,7 @@ var smallPool = []string{"nil", "zero", "neg1", "big62", "str", "sym", "keyword"
 // numPool: every ordered pair of these for every function that documents a numeric
 // parameter, in both tiers: the places where machine arithmetic has an edge.
 var numPool = []string{"zero", "one", "neg1", "three", "big62", "minfix", "maxfix", "big70", "negbig70", "ratio", "negratio", "double", "negzero", "single", "long", "complex",
-	"octet0", "octet7", "bit0", "bit1", "sbyte0", "ubyte0", "sbyte-neg"}
+	"octet0", "octet7", "bit0", "bit1", "sbyte0", "ubyte0", "sbyte-neg", "inf", "nan"}
 
 // quickPool: the quick tier walks every pair of these for every function.
 var quickPool = []string{"nil", "zero", "three", "neg1", "big62", "big40", "bad-utf8", "deep-list", "double", "str", "sym", "keyword", "char", "list3", "list1", "dotted", "vector", "hash", "lambda", "in-stream"}
